@@ -951,10 +951,92 @@ def glue_sessions(env, aiocoap, tcp, rep):
 
 # --------------------------------------------------------------------------- entry points
 
+def reconnect_cases(aiocoap, tcp, rep):
+    """The client pool over time: a connection to a server on which its CSM was received ends (Release, Abort, loss),
+    and the next request to the same host and port opens a new one through the real `TCPClient._spawn_protocol`.
+    The new connection is a new connection: a request or response on it before the peer's CSM is answered with
+    Abort and not dispatched; after a CSM it is dispatched.  Oracle only (the model has one connection)."""
+    import asyncio
+
+    class FakeLoop:
+        def __init__(self, events):
+            self.events = events
+            self.made = []
+
+        async def create_connection(self, factory, host, port, ssl=None):
+            conn = factory()
+            transport = sim.FakeTransport(self.events)
+            conn.connection_made(transport)
+            self.made.append((conn, transport))
+            return transport, conn
+
+    def drive(coro):
+        try:
+            coro.send(None)
+        except StopIteration as e:
+            return e.value
+        coro.close()
+        raise HarnessError("TCPClient._spawn_protocol suspended (the harness has no event loop here)")
+
+    csm = sim.o_frame(225, b"", b"")
+    resp = sim.o_frame(69, b"\x07", sim.o_body([], b"answer-2"))
+    req = sim.o_frame(1, b"\x08", sim.o_body([(11, b"x")], b""))
+    ends = {"release": sim.o_frame(228, b"", b""), "abort": sim.o_frame(229, b"", b""), "loss": None}
+    for how, end_frame in ends.items():
+        for early_name, early in (("response", resp), ("request", req)):
+            for with_csm in (False, True):
+                case = {"kind": "RC", "end": how, "early": early_name, "csm_first": with_csm}
+                rep.case(case, nontrivial=True, sample_every=5)
+                rep.count("reconnect:" + how)
+                events = []
+                conn_ref = [None]
+                pool = tcp.TCPClient()
+                pool._tokenmanager = sim.RecordingTokenManager(events, conn_ref)
+                pool.log = sim._LOG
+                pool.loop = FakeLoop(events)
+                pool._default_port = 5683
+                msg = aiocoap.Message(code=aiocoap.GET)
+                msg.unresolved_remote = "server.example:5683"
+                with warnings.catch_warnings():
+                    warnings.simplefilter("ignore")
+                    c1 = drive(pool._spawn_protocol(msg))
+                    conn_ref[0] = c1
+                    c1.data_received(csm)
+                    t1 = pool.loop.made[0][1]
+                    if end_frame is not None:
+                        c1.data_received(end_frame)
+                    if not t1.closed:
+                        t1.close()
+                    c1.connection_lost(None)
+                    c2 = drive(pool._spawn_protocol(msg))
+                    if c2 is c1:
+                        rep.oracle_fail(case, "the pool handed out the connection that has ended", key="tcp-reconnect")
+                        continue
+                    conn_ref[0] = c2
+                    del events[:]
+                    if with_csm:
+                        c2.data_received(csm)
+                    c2.data_received(early)
+                dispatched = [e for e in events if e[0] in ("Q", "R")]
+                aborts = [e for e in events if e[0] == "W" and (sim.o_single_frame(e[1]) or (None,))[0] == 229]
+                closed = pool.loop.made[1][1].closed
+                if with_csm:
+                    if len(dispatched) != 1 or aborts or closed:
+                        rep.oracle_fail(case, f"second connection, {early_name} after its CSM: dispatched "
+                                        f"{len(dispatched)}, aborts {len(aborts)}, closed {closed}", key="tcp-reconnect")
+                elif dispatched or len(aborts) != 1 or not closed:
+                    rep.oracle_fail(case, f"second connection to the server ({how} ended the first): a {early_name} "
+                                    f"before any CSM on THIS connection was "
+                                    f"{'dispatched' if dispatched else 'not dispatched'}, aborts {len(aborts)}, "
+                                    f"closed {closed} -- expected Abort and close, nothing dispatched",
+                                    key="tcp-reconnect")
+
+
 def run(env, rep):
     aiocoap = env.import_repo()
     from aiocoap.transports import tcp
     import aiocoap.error
+    reconnect_cases(aiocoap, tcp, rep)
 
     if tcp.TcpConnection._my_max_message_size != DEFAULT_MAX:
         # not an error: the model is configured with what the code says
@@ -1178,6 +1260,24 @@ def replay(env, case):
     from aiocoap.transports import tcp
     import aiocoap.error
     k = case.get("kind")
+    if k == "RC":
+        class Sink:
+            def __init__(self):
+                self.failures = []
+
+            def case(self, *a, **kw):
+                pass
+
+            def count(self, *a, **kw):
+                pass
+
+            def oracle_fail(self, c, text, key=None):
+                if c == case:
+                    self.failures.append(text)
+
+        sink = Sink()
+        reconnect_cases(aiocoap, tcp, sink)
+        return sink.failures[0] if sink.failures else ""
     if k == "F":
         out, events, conn, stream = run_F(tcp, case)
         return judge_F(aiocoap, case, events, stream)[0]
